@@ -43,7 +43,13 @@ func VerifC13_ScalarRoundTrip() {
 	f := verifrt.Float64("f")
 	b := verifrt.Bool("b")
 	times := []time.Time{{}, time.Unix(0, 0), time.Date(2020, 2, 29, 23, 59, 59, 999999999, time.UTC), time.Date(9999, 12, 31, 0, 0, 0, 0, time.UTC), time.Date(1, 1, 1, 0, 0, 0, 1, time.UTC)}
-	t := times[verifrt.Choose("t", len(times))]
+	tk := verifrt.Choose("t", len(times)+1)
+	var t time.Time
+	if tk < len(times) {
+		t = times[tk]
+	} else {
+		t = verifrt.TimeUTC("t") // an arbitrary instant, nanosecond resolution
+	}
 	verifWithTypedBucket(func(bk *TypedBucket) {
 		bk.SetString("s", s, nil)
 		bk.SetStringP("sp", sp, nil)
